@@ -15,7 +15,7 @@ import scen
 PROP = "C13"
 POOL = ["ed1", "ed2", "ed3", "ed4", "ed5", "ed6", "edp1", "edp2", "ec-b", "ec-c"]
 KINDS = ["summary_only", "disallow", "match_next", "agreeing_surplus", "two_failing_steps", "delegated_surplus",
-         "require", "summary_first_step", "multi_party_nested_dissent", "multi_party_digest_dissent", "match_partial_digest_agreement", "same_key_two_descriptions", "cosigned_by_outsider"]
+         "require", "summary_first_step", "multi_party_nested_dissent", "multi_party_digest_dissent", "match_partial_digest_agreement", "same_key_two_descriptions", "cosigned_by_outsider", "link_named_like_another_step"]
 
 
 def outcome_key(run, last):
@@ -113,6 +113,21 @@ def build(rng, W, kind):
         d = pipeline.leaf_link("package", 1)
         d["materials"] = variant_link("build", 0, 0)["products"]
         add("package", keys[0], d)
+    elif kind == "link_named_like_another_step":
+        # what a link says its name is decides nothing (it is filed by its file name): several items whose links all carry the
+        # name of ONE of them, with differing artifacts, and a rule that refers to that name
+        k0 = keys[0]
+        steps = [scen.mk_step("build", 1, [W.kid(k0)], [], [["ALLOW", "*"]], [["ALLOW", "*"]]),
+                 scen.mk_step("package", 1, [W.kid(k0)], [], [["ALLOW", "*"]], [["ALLOW", "*"]]),
+                 scen.mk_step("ship", 1, [W.kid(k0)], [],
+                              [["MATCH", "out/o0", "WITH", "PRODUCTS", "FROM", "build"], ["DISALLOW", "out/o0"], ["ALLOW", "*"]], [["ALLOW", "*"]])]
+        b = variant_link("build", 0, 0)
+        p_ = variant_link("build", 0, 1)              # filed for step package, says "build", another digest for out/o0
+        sh_ = variant_link(rng.choice(["build", "ship"]), 0, 0)
+        sh_["materials"] = dict(b["products"])
+        add("build", k0, b)
+        add("package", k0, p_)
+        add("ship", k0, sh_)
     elif kind == "agreeing_surplus":
         thr = rng.choice([1, 2])
         steps = [scen.mk_step("build", thr, [W.kid(k) for k in keys], [], [["ALLOW", "*"]], [["ALLOW", "*"]])]
@@ -686,7 +701,7 @@ def main(ctx):
              "non-trivial = the surplus links differ; distinct by (layout, directory); evaluations = verifications",
         assumptions=["fresh HashMap instances get fresh SipHash keys (std RandomState), fresh processes fresh base keys"],
         required=["kind:summary_only", "kind:disallow", "kind:match_next", "kind:delegated_surplus", "kind:require",
-                  "kind:multi_party_nested_dissent", "kind:same_key_two_descriptions", "kind:cosigned_by_outsider", "history:delegated:outcomes:1", "history:accept", "concurrent_neighbour:subject_ok:outcomes:1", "concurrent_neighbour:background_ok", "concurrent_neighbour:background_err", "key_forms_history:rsa:outcomes:1", "key_forms_history:ed:outcomes:1", "key_forms_history:ec:outcomes:1", "key_forms_history:accept", "history:failing_verifications_in_between",
+                  "kind:multi_party_nested_dissent", "kind:same_key_two_descriptions", "kind:cosigned_by_outsider", "kind:link_named_like_another_step", "history:delegated:outcomes:1", "history:accept", "concurrent_neighbour:subject_ok:outcomes:1", "concurrent_neighbour:background_ok", "concurrent_neighbour:background_err", "key_forms_history:rsa:outcomes:1", "key_forms_history:ed:outcomes:1", "key_forms_history:ec:outcomes:1", "key_forms_history:accept", "history:failing_verifications_in_between",
                   "iteration_order_varied", "accept_seen", "kind:enumeration_order", "kind:sublayout_inspections_share_workdir", "kind:keyid_capitals:layout_signature",
                   "kind:keyid_capitals:key_table_member", "kind:keyid_capitals:control", "enumeration:symlink_listed_first",
                   "enumeration:symlink_listed_second"],
